@@ -176,13 +176,17 @@ def run_case(case):
         # 5. aliases and tests from clean
         targets = [(name, m.node_target_steps(members)) for name, members in
                    sorted(m.members.items())]
+        # command() targets: everything the command line names must be built first
+        for nd in spec['nodes']:
+            if nd['kind'] == 'cmd':
+                targets.append((nd['name'], m.node_target_steps([nd['id']])))
         if m.tests:
             targets.append(('tests', m.test_steps()))
         if spec.get('install'):
             # `install` builds the default set first, then runs the (stubbed) install tool
             targets.append(('install', dflt))
-        if len(targets) > 3 and case['max_touch'] < 100:
-            targets = rng.sample(targets, 3)
+        if len(targets) > 4 and case['max_touch'] < 100:
+            targets = rng.sample(targets, 4)
         for name, exp in targets:
             rc, out = p.clean()
             if rc != 0:
